@@ -5,11 +5,16 @@ import Splipy.Lemmas.C14Spec
 import Splipy.Lemmas.C14Through
 import Splipy.Lemmas.C14LsqGrid
 import Splipy.Lemmas.C14Loft
+import Splipy.Lemmas.C14LoftOk
 import Splipy.Lemmas.C14Bezier
 import Splipy.Lemmas.C14Lsq
+import Splipy.Lemmas.C14LsqGrid2
 import Splipy.Lemmas.C14Free
 import Splipy.Lemmas.C14Energy
+import Splipy.Lemmas.C14Clamped
+import Splipy.Lemmas.C14Hermite
 import Splipy.Lemmas.C14Periodic
+import Splipy.Lemmas.C14PerUniform
 import Splipy.Lemmas.C08Seam
 import Mathlib.Data.Rat.Floor
 import Mathlib.Tactic.IntervalCases
@@ -346,7 +351,9 @@ theorem C14_projection_least_squares_surface (bu bv : Basis K) (tol : K) (tu tv 
   congr 1
   exact sum_congr rfl (fun b _ => by rw [get_colloc bv tol tv 0 j b hj])
 
-/-- **Lofting passes through every section, in order** — partial: CURVE sections that are already on
+/-- **Lofting passes through every section, in order** — CONDITIONAL form (the success of the model is a
+hypothesis; it covers periodic section bases too; `C14_loft_curves_partial` below removes the hypothesis for
+non-periodic clamped section bases) — partial: CURVE sections that are already on
 one common basis (`make_splines_identical` is property C12 and runs before this model function), and
 `n ≥ 3` sections (for `n = 2` the code takes the `edge_curves` path, which is not modelled here).
 If `surface_factory.loft` (model) returns the lofting basis `bL` and the control net `cp`
@@ -354,7 +361,7 @@ If `surface_factory.loft` (model) returns the lofting basis `bL` and the control
 direction at the `i`-th lofting parameter `v_i` gives back the `i`-th section's control net:
 `Σ_j N^L_j(v_i) · cp[a][j] = sec_i[a]` — hence the surface restricted to `v = v_i` is section `i`.
 The cumulative centre distances `dist` are computed by `loftFull` (`cumsum`). -/
-theorem C14_loft_curves_partial (b1 bL : Basis K) (tol : K) (secs : List (Tensor K)) (dist v : List K)
+theorem C14_loft_curves_if_ok_partial (b1 bL : Basis K) (tol : K) (secs : List (Tensor K)) (dist v : List K)
     (m nc : ℕ) (cp : Tensor K) (hm : 0 < m) (hm1 : m = b1.numFunctions) (hn3 : 3 ≤ secs.length)
     (hsecs : ∀ s ∈ secs, s.shape = [m, nc])
     (hlb : loftBasis tol secs.length dist = .ok (bL, v)) (hv : v.length = secs.length)
@@ -420,12 +427,14 @@ theorem C14_loft_curves_partial (b1 bL : Basis K) (tol : K) (secs : List (Tensor
                     rw [← r2 i hi a ha c hc]
                     exact sum_congr rfl (fun j _ => by rw [get_colloc bL tol v 0 i j (by omega)])
 
-/-- **Volume lofting passes through every SURFACE section, in order** — partial: sections already on
+/-- **Volume lofting passes through every SURFACE section, in order** — CONDITIONAL form (success of the
+model is a hypothesis; `C14_loft_surfaces_partial` removes it for non-periodic clamped section bases) —
+partial: sections already on
 common bases `b1`, `b2` (after `make_splines_identical`, property C12), `n ≥ 3` sections.  If
 `volume_factory.loft` (model) returns `(bL, cp)` with `cp` the `m₁ × m₂ × n × ncomp` control net after the
 transposes, then `Σ_j N^L_j(w_i) · cp[a][b][j] = sec_i[a][b]`: the volume restricted to `w = w_i` is
 section `i`. -/
-theorem C14_loft_surfaces_partial (b1 b2 bL : Basis K) (tol : K) (secs : List (Tensor K)) (dist v : List K)
+theorem C14_loft_surfaces_if_ok_partial (b1 b2 bL : Basis K) (tol : K) (secs : List (Tensor K)) (dist v : List K)
     (m1 m2 nc : ℕ) (cp : Tensor K) (hm1 : 0 < m1) (hm2 : 0 < m2)
     (hb1 : m1 = b1.numFunctions) (hb2 : m2 = b2.numFunctions) (hn3 : 3 ≤ secs.length)
     (hsecs : ∀ s ∈ secs, s.shape = [m1, m2, nc])
@@ -1136,25 +1145,78 @@ theorem C14_row_is_splineDeriv {b : Basis K} (hv : b.Valid) (hper : b.periodic =
   intro l hl
   rw [C01_value_deriv_open hv hper htol hex h1 h2 (by simp) hd (mem_range.mp hl), mul_comm]
 
-/-- **Closed `C²` seam of `cubic_curve(…, PERIODIC)`** (partial).  The model's result has `order = 4`
-and `periodic = 2` (`C14_cubic_boundary`).  For every bi-infinite periodic continuation `τ` (period
-`T`, `n = numFunctions` knots per period) of its knot vector with a simple seam knot and the periodic
-continuation `c` of a column of control points, value, first and second derivative agree across the
-seam (`C08_seam_smooth`, `q = 3`, `m = 1`).  Missing: the identification of the continuation with the
-model's wrapped evaluation (C01 periodic sums) is C08's subject and is not re-proved here. -/
-theorem C14_cubic_PERIODIC_seam_partial (tol rt atl : K) (x : Mat K) (t : List K) (tg : Option (Mat K))
-    (basis : Basis K) (cp : Mat K) (h : cubicCurve bPERIODIC tol rt atl x t tg = .ok (basis, cp))
-    (τ : ℕ → K) (hτ : Monotone τ) (T : K) (hT : 0 < T)
-    (hagree : ∀ i, i < basis.knots.size → τ i = basis.kn i)
-    (hperiod : ∀ i, τ (i + basis.numFunctions) = τ i + T)
-    (hseam : ∀ j, τ j = τ 3 → τ (j + 1) ≠ τ 3)
-    (c : ℕ → K) (hc : ∀ i, c (i + basis.numFunctions) = c i)
-    (N : ℕ) (hN : τ 3 + T ≤ τ N) (hnN : basis.numFunctions ≤ N) (d : ℕ) (hd : d ≤ 2) :
-    basis.order = 4 ∧ basis.periodic = 2 ∧
-    splineDeriv .left τ 3 N c d (τ 3 + T) = splineDeriv .right τ 3 N c d (τ 3) := by
-  obtain ⟨_, _, _, ho, hp, _⟩ := C14_cubic_boundary _ _ _ _ _ _ _ _ _ h
-  simp only [if_true] at hp
-  exact ⟨ho, hp, periodic_seam_smooth τ hτ basis.numFunctions T hperiod c hc 3 1 d N hT (by omega) hseam hN hnN⟩
+/-- **Closed `C²` seam of `cubic_curve(…, PERIODIC)` — in the model's own wrapped evaluation.**  For every
+closed parameter list `t₀ < … < t_N` (`N ≥ 3`, i.e. at least four entries as the code requires; gaps
+≥ tol): if the model returns `(basis, cp)` then `basis` is `perBasis t` (order 4, `periodic = 2`, knots
+`t` extended by three wrapped knots on each side), its domain is `[t₀, t_N]`, and for every derivative
+order `d ≤ 2` the RESULT CURVE's `SplineObject.derivative` (`Obj.derivativeGeneric`) at the end `t_N`
+(from either side) and at the start `t₀` from below returns exactly what it returns at `t₀` from above:
+value, tangent and curvature are continuous across the seam.  (The identification of the periodic
+continuation with the wrapped evaluation is `derivativeGeneric_seam`, C08.) -/
+theorem C14_cubic_PERIODIC_seam (tol rt atl : K) (htol : 0 < tol) (x : Mat K) (t : List K)
+    (h4 : 4 ≤ t.length) (hgap : t.Pairwise (fun u w => u + tol ≤ w))
+    (tg : Option (Mat K)) (basis : Basis K) (cp : Mat K)
+    (h : cubicCurve bPERIODIC tol rt atl x t tg = .ok (basis, cp)) (d : ℕ) (hd : d ≤ 2) (a tensor : Bool) :
+    basis = perBasis t ∧ basis.order = 4 ∧ basis.periodic = 2 ∧
+    basis.start = t.getD 0 0 ∧ basis.stop = t.getD (t.length - 1) 0 ∧
+    (curveOf basis cp).derivativeGeneric tol [[t.getD (t.length - 1) 0]] [d] [a] tensor
+        = (curveOf basis cp).derivativeGeneric tol [[t.getD 0 0]] [d] [true] tensor ∧
+    (curveOf basis cp).derivativeGeneric tol [[t.getD 0 0]] [d] [false] tensor
+        = (curveOf basis cp).derivativeGeneric tol [[t.getD 0 0]] [d] [true] tensor := by
+  have hgap' : ∀ i j, i < j → j < t.length → t.getD i 0 + tol ≤ t.getD j 0 := by
+    intro i j hij hj
+    have := List.pairwise_iff_getElem.mp hgap i j (by omega) hj hij
+    simpa [List.getD_eq_getElem?_getD, List.getElem?_eq_getElem, hj, (by omega : i < t.length)] using this
+  obtain ⟨r1, r2, r3, r4, r5⟩ := cubicCurve_PERIODIC_seam tol rt atl htol x t h4 hgap' tg basis cp h d hd a tensor
+  exact ⟨r1, by rw [r1]; rfl, by rw [r1]; rfl, r2, r3, r4, r5⟩
+
+/-- **`cubic_curve(x, PERIODIC, t)` on UNIFORM parameters needs no solvability hypothesis** (partial:
+uniform parameters `t_k = s + k·h`, `k = 0 … M+3`, `tol ≤ h`, only; for non-uniform parameters the
+periodic collocation matrix is not diagonally dominant in general and solvability stays a hypothesis of
+`C14_cubic_PERIODIC_seam` / `C14_cubic_boundary`).  `x'` is the input after the model's closing step
+(`cubicClose`: the first point appended if the input is not closed), `(M+4) × m`.  Then the model
+SUCCEEDS with `perBasis t`, the control net is `(M+3) × m`, the interpolation rows hold at every
+`t_i` (`i ≤ M+2`; the duplicate seam point is dropped), and the result is `C²` across the seam. -/
+theorem C14_cubic_PERIODIC_uniform_exists_partial (tol rt atl : K) (htol : 0 < tol) (s h : K) (hh : 0 < h)
+    (htolh : tol ≤ h) (t : List K) (M : ℕ) (hlen : t.length = M + 4)
+    (hu : ∀ k, k < M + 4 → t.getD k 0 = s + h * (k : K)) (x : Mat K) (m : ℕ)
+    (hxs : (cubicClose bPERIODIC rt atl x).size = M + 4 ∧
+      ∀ i, i < M + 4 → ((cubicClose bPERIODIC rt atl x).getD i #[]).size = m)
+    (tg : Option (Mat K)) :
+    ∃ cp, cubicCurve bPERIODIC tol rt atl x t tg = .ok (perBasis t, cp) ∧
+      cp.size = M + 3 ∧ (∀ i, i < M + 3 → (cp.getD i #[]).size = m) ∧
+      (∀ i < M + 3, ∀ j < m,
+        ∑ l ∈ range (M + 3), ((perBasis t).evaluate tol (t.getD i 0) 0 true).getD l 0 * cp.get l j
+          = (cubicClose bPERIODIC rt atl x).get i j) ∧
+      ∀ d ≤ 2, ∀ a tensor : Bool,
+        (curveOf (perBasis t) cp).derivativeGeneric tol [[t.getD (t.length - 1) 0]] [d] [a] tensor
+          = (curveOf (perBasis t) cp).derivativeGeneric tol [[t.getD 0 0]] [d] [true] tensor ∧
+        (curveOf (perBasis t) cp).derivativeGeneric tol [[t.getD 0 0]] [d] [false] tensor
+          = (curveOf (perBasis t) cp).derivativeGeneric tol [[t.getD 0 0]] [d] [true] tensor := by
+  obtain ⟨hgap, cp, hcp, s1, s2⟩ := cubicCurve_PERIODIC_uniform_ok tol rt atl htol s h hh htolh t M hlen hu x m hxs tg
+  refine ⟨cp, hcp, s1, s2, ?_, fun d hd a tensor => ?_⟩
+  · obtain ⟨eN, eR, _, _, _, _, _, _, hint, _, _, hcols⟩ := C14_cubic_boundary _ _ _ _ _ _ _ _ _ hcp
+    simp only [if_true] at hint hcols
+    have hnf : (perBasis t).numFunctions = M + 3 := by rw [perBasis_numFunctions, hlen]; rfl
+    have hpop0 : ((cubicClose bPERIODIC rt atl x).pop.getD 0 #[]).size = m := by
+      have h1 : 0 < (cubicClose bPERIODIC rt atl x).size := by rw [hxs.1]; omega
+      have h2 : 0 < (cubicClose bPERIODIC rt atl x).size - 1 := by rw [hxs.1]; omega
+      have : (cubicClose bPERIODIC rt atl x).pop.getD 0 #[] = (cubicClose bPERIODIC rt atl x).getD 0 #[] := by
+        simp [Array.getD, h1, h2, Array.getElem_pop]
+      rw [this]; exact hxs.2 0 (by omega)
+    intro i hi j hj
+    have := hint i (by rw [List.length_dropLast, hlen]; omega) j (by rw [hcols, hpop0]; exact hj)
+    rw [hnf] at this
+    have e1 : t.dropLast.getD i 0 = t.getD i 0 := by
+      simp only [List.getD_eq_getElem?_getD]
+      rw [List.getElem?_dropLast, if_pos (by rw [hlen]; omega)]
+    rw [e1] at this
+    rw [this]
+    have h1 : i < (cubicClose bPERIODIC rt atl x).size := by rw [hxs.1]; omega
+    have h2 : i < (cubicClose bPERIODIC rt atl x).size - 1 := by rw [hxs.1]; omega
+    simp [Mat.get, Array.getD, h1, h2, Array.getElem_pop]
+  · obtain ⟨_, _, _, r4, r5⟩ := cubicCurve_PERIODIC_seam tol rt atl htol x t (by omega) hgap tg _ cp hcp d hd a tensor
+    exact ⟨r4, r5⟩
 
 /-- **The returned curve object evaluates to the data** (through C02): `Curve(basis, cp)` evaluated by
 the model's `SplineObject.evaluate` at the interpolation parameters gives back `x`. -/
@@ -1468,6 +1530,154 @@ theorem C14_lsq_reproduces {b : Basis K} (hv : b.Valid) (hper : b.periodic = -1)
     · exact h0)
   exact ⟨c, hc, q1, by rw [q2, hxm], fun l hl j hj => p1 l hl j (by rw [q2, hxm]; exact hj)⟩
 
+/-- **`surface_factory.least_square_fit` needs no solvability hypothesis and reproduces the space.**
+Both bases valid, clamped, non-periodic of order ≥ 2 with continuous splines; the sample lists `tu`, `tv`
+CONTAIN (at positions `iu l`, `iv l`) exact nested points (Schoenberg–Whitney, `GenNested`).  Then for any
+data of shape `|tu| × |tv| × d` (after the model's `gridInputLsq`) the two normal-equation loops
+SUCCEED; if moreover the data are sampled from a tensor-product spline of the target space the result
+has shape `n_u × n_v × d` and equals its coefficients `c0`. -/
+theorem C14_lsq_surface_exists {bu bv : Basis K}
+    (hvu : bu.Valid) (hperu : bu.periodic = -1) (hpu : 2 ≤ bu.order)
+    (hc0u : bu.kn 0 = bu.kn (bu.order - 1))
+    (hc1u : bu.kn bu.numFunctions = bu.kn (bu.numFunctions + (bu.order - 1)))
+    (hmultu : ∀ i, 1 ≤ i → i < bu.numFunctions → bu.kn i < bu.kn (i + (bu.order - 1)))
+    (hvv : bv.Valid) (hperv : bv.periodic = -1) (hpv : 2 ≤ bv.order)
+    (hc0v : bv.kn 0 = bv.kn (bv.order - 1))
+    (hc1v : bv.kn bv.numFunctions = bv.kn (bv.numFunctions + (bv.order - 1)))
+    (hmultv : ∀ i, 1 ≤ i → i < bv.numFunctions → bv.kn i < bv.kn (i + (bv.order - 1)))
+    {tol : K} (htol : 0 < tol) (tu tv : List K) (iu iv : ℕ → ℕ) (p0u p1u p0v p1v : Bool)
+    (hiu : ∀ l, l < bu.numFunctions → iu l < tu.length)
+    (hxu : GenNested bu.kn (bu.order - 1) bu.numFunctions (fun l => tu.getD (iu l) 0) p0u p1u)
+    (hexu : ∀ l, l < bu.numFunctions → bu.ExactAt tol (tu.getD (iu l) 0))
+    (hiv : ∀ l, l < bv.numFunctions → iv l < tv.length)
+    (hxv : GenNested bv.kn (bv.order - 1) bv.numFunctions (fun l => tv.getD (iv l) 0) p0v p1v)
+    (hexv : ∀ l, l < bv.numFunctions → bv.ExactAt tol (tv.getD (iv l) 0))
+    (x x' : Tensor K) (d : ℕ)
+    (hx' : gridInputLsq [tu, tv] x = .ok x') (hsh : x'.shape = [tu.length, tv.length, d]) :
+    ∃ cp, leastSquareGridCore [bu, bv] tol [tu, tv] x = .ok cp ∧
+      ∀ c0 : ℕ → ℕ → ℕ → K,
+        (∀ i < tu.length, ∀ j < tv.length, ∀ k < d,
+          x'.entry3 tv.length d i j k
+            = ∑ a ∈ range bu.numFunctions, (bu.evaluate tol (tu.getD i 0) 0 true).getD a 0 *
+                ∑ b ∈ range bv.numFunctions, (bv.evaluate tol (tv.getD j 0) 0 true).getD b 0 * c0 a b k) →
+        cp.shape = [bu.numFunctions, bv.numFunctions, d] ∧
+        ∀ a < bu.numFunctions, ∀ b < bv.numFunctions, ∀ k < d,
+          cp.entry3 bv.numFunctions d a b k = c0 a b k := by
+  obtain ⟨cp, Giu, Giv, hcp, hGu, hGv⟩ := leastSquareSurface_ok hvu hperu hpu hc0u hc1u hmultu
+    hvv hperv hpv hc0v hc1v hmultv htol tu tv iu iv p0u p1u p0v p1v hiu hxu hexu hiv hxv hexv x x' d hx' hsh
+  have hnu : 0 < bu.numFunctions := by
+    have := hvu.order_le_nAll
+    have := Basis.numFunctions_of_nonperiodic hperu
+    omega
+  have hnv : 0 < bv.numFunctions := by
+    have := hvv.order_le_nAll
+    have := Basis.numFunctions_of_nonperiodic hperv
+    omega
+  have htu : tu ≠ [] := by
+    intro h0; have := hiu 0 hnu; rw [h0] at this; simp at this
+  have htv : tv ≠ [] := by
+    intro h0; have := hiv 0 hnv; rw [h0] at this; simp at this
+  exact ⟨cp, hcp, fun c0 hdata =>
+    C14_projection_least_squares_surface bu bv tol tu tv x x' cp d c0 Giu Giv htu htv hx' hsh hGu hGv hdata hcp⟩
+
+/-- **Lofting SUCCEEDS and passes through every section — no solvability hypothesis** (partial only in
+the family covered: `n ≥ 3` CURVE sections already on one common basis (after `make_splines_identical`,
+property C12) that is non-periodic, clamped, of order ≥ 2 with continuous splines and distinct knots
+`≥ 2(p−1)·tol` apart; missing: `n = 2` (`edge_curves` path) and PERIODIC section bases, for which
+`C14_loft_curves_if_ok_partial` still needs the success of the solves as a hypothesis).
+If consecutive section centres are at least `tol` apart (`cdists_i ≥ tol`; `4·tol ≤ 1`), then
+`surface_factory.loft` (model `loftFull`, which cumulates the centre distances itself) returns a lofting
+basis `bL` (for `n ≥ 4`: the cubic FREE interpolation basis on the cumulated distances `v`; for `n = 3`
+the quadratic Bézier basis with `v` its Greville points) and a control net of shape `m × n × ncomp` with
+`Σ_j N^L_j(v_i) · cp[a][j] = sec_i[a]` for every section `i`.  Solvability: Schoenberg–Whitney in both
+directions. -/
+theorem C14_loft_curves_partial {b1 : Basis K} (hv1 : b1.Valid) (hper1 : b1.periodic = -1) (hp1 : 2 ≤ b1.order)
+    (hc01 : b1.kn 0 = b1.kn (b1.order - 1))
+    (hc11 : b1.kn b1.numFunctions = b1.kn (b1.numFunctions + (b1.order - 1)))
+    (hmult1 : ∀ i, 1 ≤ i → i < b1.numFunctions → b1.kn i < b1.kn (i + (b1.order - 1)))
+    {tol : K} (htol : 0 < tol) (h4 : 4 * tol ≤ 1)
+    (hgap1 : ∀ i j, b1.kn i < b1.kn j → b1.kn i + 2 * ((b1.order - 1 : ℕ) : K) * tol ≤ b1.kn j)
+    (secs : List (Tensor K)) (cdists : List K) (m nc : ℕ) (hm1 : m = b1.numFunctions)
+    (hn3 : 3 ≤ secs.length) (hlen : cdists.length + 1 = secs.length) (hc : ∀ c ∈ cdists, tol ≤ c)
+    (hsecs : ∀ s ∈ secs, s.shape = [m, nc]) :
+    ∃ bL v cp, loftFull [b1] tol secs cdists = .ok (bL, cp) ∧
+      loftBasis tol secs.length (cumsum 0 cdists) = .ok (bL, v) ∧ v.length = secs.length ∧
+      (4 ≤ secs.length → v = cumsum 0 cdists) ∧
+      cp.shape = [m, secs.length, nc] ∧
+      ∀ i < secs.length, ∀ a < m, ∀ c < nc,
+        ∑ j ∈ range secs.length, (bL.evaluate tol (v.getD i 0) 0 true).getD j 0 * cp.entry3 secs.length nc a j c
+          = (secs.getD i default).entry2 nc a c := by
+  have hm : 0 < m := by
+    have := hv1.order_le_nAll
+    have := Basis.numFunctions_of_nonperiodic hper1
+    omega
+  have hdl : (cumsum 0 cdists).length = secs.length := by rw [cumsum_length, hlen]
+  have hbasis : ∃ bL v iL, loftBasis tol secs.length (cumsum 0 cdists) = .ok (bL, v) ∧ v.length = secs.length ∧
+      (4 ≤ secs.length → v = cumsum 0 cdists) ∧ invC (colloc bL tol v 0) = .ok iL := by
+    by_cases h3 : secs.length = 3
+    · obtain ⟨v, iL, h1, h2, h3'⟩ := loftBasis_three_ok tol htol h4 (cumsum 0 cdists)
+      exact ⟨loftB3, v, iL, by rw [h3]; exact h1, by rw [h2, h3], fun h => by omega, h3'⟩
+    · obtain ⟨bL, iL, h1, h2⟩ := loftBasis_free_ok tol htol (cumsum 0 cdists) (by rw [hdl]; omega)
+        (cumsum_gap tol htol.le cdists hc)
+      rw [hdl] at h1
+      exact ⟨bL, _, iL, h1, hdl, fun _ => rfl, h2⟩
+  obtain ⟨bL, v, iL, hlb, hvl, hv4, hiL⟩ := hbasis
+  obtain ⟨cp, hcp⟩ := loft_curves_ok hv1 hper1 hp1 hc01 hc11 hmult1 htol hgap1 bL v iL secs (cumsum 0 cdists) m nc
+    hm1 (by omega) hsecs hlb hvl hiL
+  obtain ⟨r1, r2⟩ := C14_loft_curves_if_ok_partial b1 bL tol secs (cumsum 0 cdists) v m nc cp hm hm1 hn3 hsecs hlb hvl hcp
+  exact ⟨bL, v, cp, hcp, hlb, hvl, hv4, r1, r2⟩
+
+/-- **Volume lofting SUCCEEDS and passes through every SURFACE section — no solvability hypothesis**
+(partial in the same sense as `C14_loft_curves_partial`: `n ≥ 3` sections on common non-periodic clamped
+continuous bases `b1`, `b2`; `n = 2` and periodic section bases are missing). -/
+theorem C14_loft_surfaces_partial {b1 b2 : Basis K}
+    (hv1 : b1.Valid) (hper1 : b1.periodic = -1) (hp1 : 2 ≤ b1.order)
+    (hc01 : b1.kn 0 = b1.kn (b1.order - 1))
+    (hc11 : b1.kn b1.numFunctions = b1.kn (b1.numFunctions + (b1.order - 1)))
+    (hmult1 : ∀ i, 1 ≤ i → i < b1.numFunctions → b1.kn i < b1.kn (i + (b1.order - 1)))
+    (hv2 : b2.Valid) (hper2 : b2.periodic = -1) (hp2 : 2 ≤ b2.order)
+    (hc02 : b2.kn 0 = b2.kn (b2.order - 1))
+    (hc12 : b2.kn b2.numFunctions = b2.kn (b2.numFunctions + (b2.order - 1)))
+    (hmult2 : ∀ i, 1 ≤ i → i < b2.numFunctions → b2.kn i < b2.kn (i + (b2.order - 1)))
+    {tol : K} (htol : 0 < tol) (h4 : 4 * tol ≤ 1)
+    (hgap1 : ∀ i j, b1.kn i < b1.kn j → b1.kn i + 2 * ((b1.order - 1 : ℕ) : K) * tol ≤ b1.kn j)
+    (hgap2 : ∀ i j, b2.kn i < b2.kn j → b2.kn i + 2 * ((b2.order - 1 : ℕ) : K) * tol ≤ b2.kn j)
+    (secs : List (Tensor K)) (cdists : List K) (m1 m2 nc : ℕ)
+    (hm1 : m1 = b1.numFunctions) (hm2 : m2 = b2.numFunctions)
+    (hn3 : 3 ≤ secs.length) (hlen : cdists.length + 1 = secs.length) (hc : ∀ c ∈ cdists, tol ≤ c)
+    (hsecs : ∀ s ∈ secs, s.shape = [m1, m2, nc]) :
+    ∃ bL v cp, loftFull [b1, b2] tol secs cdists = .ok (bL, cp) ∧
+      loftBasis tol secs.length (cumsum 0 cdists) = .ok (bL, v) ∧ v.length = secs.length ∧
+      (4 ≤ secs.length → v = cumsum 0 cdists) ∧
+      cp.shape = [m1, m2, secs.length, nc] ∧
+      ∀ i < secs.length, ∀ a < m1, ∀ b < m2, ∀ c < nc,
+        ∑ j ∈ range secs.length, (bL.evaluate tol (v.getD i 0) 0 true).getD j 0 * cp.entry4 m2 secs.length nc a b j c
+          = (secs.getD i default).entry3 m2 nc a b c := by
+  have hpos : ∀ {b : Basis K}, b.Valid → b.periodic = -1 → 0 < b.numFunctions := by
+    intro b hv hper
+    have := hv.order_le_nAll
+    have := Basis.numFunctions_of_nonperiodic hper
+    have := hv.order_pos
+    omega
+  have hm1' : 0 < m1 := by rw [hm1]; exact hpos hv1 hper1
+  have hm2' : 0 < m2 := by rw [hm2]; exact hpos hv2 hper2
+  have hdl : (cumsum 0 cdists).length = secs.length := by rw [cumsum_length, hlen]
+  have hbasis : ∃ bL v iL, loftBasis tol secs.length (cumsum 0 cdists) = .ok (bL, v) ∧ v.length = secs.length ∧
+      (4 ≤ secs.length → v = cumsum 0 cdists) ∧ invC (colloc bL tol v 0) = .ok iL := by
+    by_cases h3 : secs.length = 3
+    · obtain ⟨v, iL, h1, h2, h3'⟩ := loftBasis_three_ok tol htol h4 (cumsum 0 cdists)
+      exact ⟨loftB3, v, iL, by rw [h3]; exact h1, by rw [h2, h3], fun h => by omega, h3'⟩
+    · obtain ⟨bL, iL, h1, h2⟩ := loftBasis_free_ok tol htol (cumsum 0 cdists) (by rw [hdl]; omega)
+        (cumsum_gap tol htol.le cdists hc)
+      rw [hdl] at h1
+      exact ⟨bL, _, iL, h1, hdl, fun _ => rfl, h2⟩
+  obtain ⟨bL, v, iL, hlb, hvl, hv4, hiL⟩ := hbasis
+  obtain ⟨cp, hcp⟩ := loft_surfaces_ok hv1 hper1 hp1 hc01 hc11 hmult1 hv2 hper2 hp2 hc02 hc12 hmult2 htol hgap1 hgap2
+    bL v iL secs (cumsum 0 cdists) m1 m2 nc hm1 hm2 (by omega) hsecs hlb hvl hiL
+  obtain ⟨r1, r2⟩ := C14_loft_surfaces_if_ok_partial b1 b2 bL tol secs (cumsum 0 cdists) v m1 m2 nc cp hm1' hm2'
+    hm1 hm2 hn3 hsecs hlb hvl hcp
+  exact ⟨bL, v, cp, hcp, hlb, hvl, hv4, r1, r2⟩
+
 /-- Default Greville parameters without the exactness assumption: if distinct knots are at least
 `2(p−1)·tol` apart (so that `snap` cannot destroy the nesting), interpolation SUCCEEDS. -/
 theorem C14_interpolate_curve_greville_succeeds {b : Basis K} (hv : b.Valid) (hper : b.periodic = -1)
@@ -1479,6 +1689,252 @@ theorem C14_interpolate_curve_greville_succeeds {b : Basis K} (hv : b.Valid) (hp
     (x : Mat K) (m : ℕ) (hxs : x.size = b.numFunctions ∧ ∀ i, i < b.numFunctions → (x.getD i #[]).size = m) :
     ∃ c, interpolateCurve b tol none x = .ok c :=
   interpolateCurve_ok_greville hv hper hp hc0 hc1 hmult htol hgap x m hxs
+
+/-- **`cubic_curve(x, TANGENT, t, tangents)` needs no solvability hypothesis**: for EVERY parameter
+sequence `t₀ < … < t_{n−1}` (`n ≥ 2`, gaps ≥ tol), any `n × m` data and any two prescribed end tangents
+(`2 × m`) the model SUCCEEDS (energy argument: the boundary term `s'·s''` vanishes because `s'` is
+prescribed at both ends); the spline of the specification interpolates every point and its FIRST
+DERIVATIVE at the start (from the right) and at the end (from the left) equals the prescribed tangents. -/
+theorem C14_cubic_TANGENT_exists [IsStrictOrderedRing K] (a d : K) (mid : List K) (tol rt atl : K)
+    (htol : 0 < tol)
+    (hgap : (a :: (mid ++ [d])).Pairwise (fun u w => u + tol ≤ w))
+    (x : Mat K) (m : ℕ) (hxs : x.size = mid.length + 2 ∧ ∀ i, i < mid.length + 2 → (x.getD i #[]).size = m)
+    (g : Mat K) (hg : g.size = 2 ∧ ∀ i, i < 2 → (g.getD i #[]).size = m) :
+    ∃ cp, cubicCurve bTANGENT tol rt atl x (a :: (mid ++ [d])) (some g) = .ok (natBasis a d mid, cp) ∧
+      cp.size = mid.length + 4 ∧ (∀ l, l < mid.length + 4 → (cp.getD l #[]).size = m) ∧
+      (∀ i < mid.length + 2, ∀ j < m,
+        splineVal (effSide (natBasis a d mid) ((a :: (mid ++ [d])).getD i 0) true)
+          (natBasis a d mid).kn 3 (mid.length + 4) (fun l => cp.get l j)
+          ((a :: (mid ++ [d])).getD i 0) = x.get i j) ∧
+      (∀ j < m,
+        splineDeriv .right (natBasis a d mid).kn 3 (mid.length + 4) (fun l => cp.get l j) 1 a = g.get 0 j ∧
+        splineDeriv .left (natBasis a d mid).kn 3 (mid.length + 4) (fun l => cp.get l j) 1 d = g.get 1 j) := by
+  have hlen : (a :: (mid ++ [d])).length = mid.length + 2 := by simp
+  have hgap' : ∀ i j, i < j → j < mid.length + 2 →
+      (a :: (mid ++ [d])).getD i 0 + tol ≤ (a :: (mid ++ [d])).getD j 0 := by
+    intro i j hij hj
+    have hi : i < (a :: (mid ++ [d])).length := by omega
+    have hj' : j < (a :: (mid ++ [d])).length := by omega
+    have := List.pairwise_iff_getElem.mp hgap i j hi hj' hij
+    rw [List.getD_eq_getElem?_getD, List.getD_eq_getElem?_getD, List.getElem?_eq_getElem hi,
+      List.getElem?_eq_getElem hj']
+    exact this
+  obtain ⟨cp, hcp, sh1, sh2⟩ := cubicCurve_TANGENT_ok a d mid tol rt atl htol hgap' x m hxs g hg
+  have hne : bTANGENT ≠ bPERIODIC := by decide
+  have hv := natBasis_valid a d mid tol hgap' htol
+  have hnf := natBasis_numFunctions a d mid
+  have hcols : cp.ncols = m := sh2 0 (by omega)
+  have hex := nat_exact a d mid tol hgap' htol
+  have hdom := nat_in_domain a d mid tol hgap' htol
+  have hstart := nat_start a d mid tol hgap' htol
+  have hstop := nat_stop a d mid tol hgap' htol
+  have hlt : a < d := by have := hv.start_lt_stop; rw [hstart, hstop] at this; exact this
+  have hexa : (natBasis a d mid).ExactAt tol a := by have := hex 0 (by omega); simpa using this
+  have hexd : (natBasis a d mid).ExactAt tol d := by
+    have := hex (mid.length + 1) (by omega)
+    have e : (a :: (mid ++ [d])).getD (mid.length + 1) 0 = d := by
+      simp [List.getD_eq_getElem?_getD, List.getElem?_append_right]
+    rw [e] at this; exact this
+  have hsa : effSide (natBasis a d mid) a true = .right := by
+    unfold effSide; rw [hstop, if_neg (ne_of_lt hlt)]; rfl
+  have hsd : effSide (natBasis a d mid) d true = .left := by
+    unfold effSide; rw [hstop, if_pos rfl]
+  have h1 : (a :: (mid ++ [d])).headD 0 = a := rfl
+  have h2 : (a :: (mid ++ [d])).getLastD 0 = d := by simp [List.getLastD]
+  have hinterp : ∀ i < mid.length + 2, ∀ j < m,
+      splineVal (effSide (natBasis a d mid) ((a :: (mid ++ [d])).getD i 0) true)
+        (natBasis a d mid).kn 3 (mid.length + 4) (fun l => cp.get l j)
+        ((a :: (mid ++ [d])).getD i 0) = x.get i j := by
+    intro i hi j hj
+    obtain ⟨eN, eR, _, _, _, _, _, _, hint, _, _, _⟩ := C14_cubic_boundary _ _ _ _ _ _ _ _ _ hcp
+    simp only [hne, if_false] at hint
+    have hh := hint i (by rw [hlen]; exact hi) j (by rw [hcols]; exact hj)
+    have hx : Mat.get (cubicClose bTANGENT rt atl x) i j = x.get i j := by unfold cubicClose; simp [hne]
+    rw [hx] at hh
+    rw [← hh]
+    unfold splineVal
+    rw [hnf]
+    apply sum_congr rfl
+    intro l hl
+    rw [evaluate_inside_right hv rfl htol (hex i hi) (hdom i hi).1 (hdom i hi).2
+      (by rw [hnf]; exact mem_range.mp hl), mul_comm]
+    rfl
+  have hbridgeA : ∀ (e : ℕ) (he : e < 4) (j : ℕ),
+      ∑ l ∈ range (mid.length + 4), ((natBasis a d mid).evaluate tol a e true).getD l 0 * cp.get l j
+        = splineDeriv .right (natBasis a d mid).kn 3 (mid.length + 4) (fun l => cp.get l j) e a := by
+    intro e he j
+    have := C14_row_is_splineDeriv hv rfl htol hexa (by rw [hstart]) (by rw [hstop]; exact hlt.le)
+      (show e < (natBasis a d mid).order from he) (fun l => cp.get l j)
+    rw [hnf, hsa] at this
+    exact this
+  have hbridgeD : ∀ (e : ℕ) (he : e < 4) (j : ℕ),
+      ∑ l ∈ range (mid.length + 4), ((natBasis a d mid).evaluate tol d e true).getD l 0 * cp.get l j
+        = splineDeriv .left (natBasis a d mid).kn 3 (mid.length + 4) (fun l => cp.get l j) e d := by
+    intro e he j
+    have := C14_row_is_splineDeriv hv rfl htol hexd (by rw [hstart]; exact hlt.le) (by rw [hstop])
+      (show e < (natBasis a d mid).order from he) (fun l => cp.get l j)
+    rw [hnf, hsd] at this
+    exact this
+  refine ⟨cp, hcp, sh1, sh2, hinterp, fun j hj => ?_⟩
+  obtain ⟨g', hg', _, _, _, hrows⟩ := C14_cubic_TANGENT tol rt atl x (a :: (mid ++ [d])) (some g) _ cp hcp
+  have : g' = g := by cases hg'; rfl
+  subst this
+  have := hrows j (by rw [hcols]; exact hj)
+  rw [h1, h2, hnf] at this
+  exact ⟨by rw [← hbridgeA 1 (by omega) j]; exact this.1, by rw [← hbridgeD 1 (by omega) j]; exact this.2⟩
+
+/-- **`cubic_curve(x, HERMITE, t, tangents)` needs no solvability hypothesis**: for EVERY parameter
+sequence `t₀ < … < t_{n−1}` (`n ≥ 2`, gaps ≥ tol), any `n × m` points and any `n × m` prescribed
+derivatives the model SUCCEEDS with the basis `hermBasis` (knots `t₀⁴, t₁², …, t_{n−2}², t_{n−1}⁴`,
+`2n` functions; the sorted knot list is computed by the model's `sortK`).  Uniqueness is local: on
+every span the cubic piece has value and derivative zero at both ends (`C¹` at the double knots).  The
+spline of the specification interpolates every point and its FIRST DERIVATIVE at every `t_i` (one-sided
+from the right, at the last parameter from the left; the spline is `C¹` so the side is immaterial)
+equals the prescribed `g_i`. -/
+theorem C14_cubic_HERMITE_exists [IsStrictOrderedRing K] (a d : K) (mid : List K) (tol rt atl : K)
+    (htol : 0 < tol)
+    (hgap : (a :: (mid ++ [d])).Pairwise (fun u w => u + tol ≤ w))
+    (x : Mat K) (m : ℕ) (hxs : x.size = mid.length + 2 ∧ ∀ i, i < mid.length + 2 → (x.getD i #[]).size = m)
+    (g : Mat K) (hg : g.size = mid.length + 2 ∧ ∀ i, i < mid.length + 2 → (g.getD i #[]).size = m) :
+    ∃ cp, cubicCurve bHERMITE tol rt atl x (a :: (mid ++ [d])) (some g) = .ok (hermBasis a d mid, cp) ∧
+      cp.size = 2 * mid.length + 4 ∧ (∀ l, l < 2 * mid.length + 4 → (cp.getD l #[]).size = m) ∧
+      ∀ i < mid.length + 2, ∀ j < m,
+        splineVal (effSide (hermBasis a d mid) ((a :: (mid ++ [d])).getD i 0) true)
+          (hermBasis a d mid).kn 3 (2 * mid.length + 4) (fun l => cp.get l j)
+          ((a :: (mid ++ [d])).getD i 0) = x.get i j ∧
+        splineDeriv (effSide (hermBasis a d mid) ((a :: (mid ++ [d])).getD i 0) true)
+          (hermBasis a d mid).kn 3 (2 * mid.length + 4) (fun l => cp.get l j) 1
+          ((a :: (mid ++ [d])).getD i 0) = g.get i j := by
+  have hlen : (a :: (mid ++ [d])).length = mid.length + 2 := by simp
+  have hgap' : ∀ i j, i < j → j < mid.length + 2 →
+      (a :: (mid ++ [d])).getD i 0 + tol ≤ (a :: (mid ++ [d])).getD j 0 := by
+    intro i j hij hj
+    have hi : i < (a :: (mid ++ [d])).length := by omega
+    have hj' : j < (a :: (mid ++ [d])).length := by omega
+    have := List.pairwise_iff_getElem.mp hgap i j hi hj' hij
+    rw [List.getD_eq_getElem?_getD, List.getD_eq_getElem?_getD, List.getElem?_eq_getElem hi,
+      List.getElem?_eq_getElem hj']
+    exact this
+  obtain ⟨cp, hcp, sh1, sh2⟩ := cubicCurve_HERMITE_ok a d mid tol rt atl htol hgap' x m hxs g hg
+  have hne : bHERMITE ≠ bPERIODIC := by decide
+  have hv := hermBasis_valid a d mid tol hgap' htol
+  have hnf := hermBasis_numFunctions a d mid
+  have hcols : cp.ncols = m := sh2 0 (by omega)
+  have hex := herm_exact a d mid tol hgap' htol
+  have hdom := herm_in_domain a d mid tol hgap' htol
+  refine ⟨cp, hcp, sh1, sh2, fun i hi j hj => ⟨?_, ?_⟩⟩
+  · obtain ⟨eN, eR, _, _, _, _, _, _, hint, _, _, _⟩ := C14_cubic_boundary _ _ _ _ _ _ _ _ _ hcp
+    simp only [hne, if_false] at hint
+    have hh := hint i (by rw [hlen]; exact hi) j (by rw [hcols]; exact hj)
+    have hx : Mat.get (cubicClose bHERMITE rt atl x) i j = x.get i j := by unfold cubicClose; simp [hne]
+    rw [hx] at hh
+    rw [← hh]
+    unfold splineVal
+    rw [hnf]
+    apply sum_congr rfl
+    intro l hl
+    rw [evaluate_inside_right hv rfl htol (hex i hi) (hdom i hi).1 (hdom i hi).2
+      (by rw [hnf]; exact mem_range.mp hl), mul_comm]
+    rfl
+  · obtain ⟨g', hg', _, _, _, hrows⟩ := C14_cubic_HERMITE tol rt atl x (a :: (mid ++ [d])) (some g) _ cp hcp
+    have : g' = g := by cases hg'; rfl
+    subst this
+    have := hrows i (by rw [hlen]; exact hi) j (by rw [hcols]; exact hj)
+    rw [← this]
+    have hb := C14_row_is_splineDeriv hv rfl htol (hex i hi) (hdom i hi).1 (hdom i hi).2
+      (show 1 < (hermBasis a d mid).order by show 1 < 4; omega) (fun l => cp.get l j)
+    rw [hnf] at hb ⊢
+    exact hb.symm
+
+/-- **`cubic_curve(x, TANGENTNATURAL, t, tangent)` needs no solvability hypothesis**: as above with the
+first derivative prescribed at the start and the second derivative vanishing at the end. -/
+theorem C14_cubic_TANGENTNATURAL_exists [IsStrictOrderedRing K] (a d : K) (mid : List K) (tol rt atl : K)
+    (htol : 0 < tol)
+    (hgap : (a :: (mid ++ [d])).Pairwise (fun u w => u + tol ≤ w))
+    (x : Mat K) (m : ℕ) (hxs : x.size = mid.length + 2 ∧ ∀ i, i < mid.length + 2 → (x.getD i #[]).size = m)
+    (g : Mat K) (hg : g.size = 1 ∧ ∀ i, i < 1 → (g.getD i #[]).size = m) :
+    ∃ cp, cubicCurve bTANGENTNATURAL tol rt atl x (a :: (mid ++ [d])) (some g) = .ok (natBasis a d mid, cp) ∧
+      cp.size = mid.length + 4 ∧ (∀ l, l < mid.length + 4 → (cp.getD l #[]).size = m) ∧
+      (∀ i < mid.length + 2, ∀ j < m,
+        splineVal (effSide (natBasis a d mid) ((a :: (mid ++ [d])).getD i 0) true)
+          (natBasis a d mid).kn 3 (mid.length + 4) (fun l => cp.get l j)
+          ((a :: (mid ++ [d])).getD i 0) = x.get i j) ∧
+      (∀ j < m,
+        splineDeriv .right (natBasis a d mid).kn 3 (mid.length + 4) (fun l => cp.get l j) 1 a = g.get 0 j ∧
+        splineDeriv .left (natBasis a d mid).kn 3 (mid.length + 4) (fun l => cp.get l j) 2 d = 0) := by
+  have hlen : (a :: (mid ++ [d])).length = mid.length + 2 := by simp
+  have hgap' : ∀ i j, i < j → j < mid.length + 2 →
+      (a :: (mid ++ [d])).getD i 0 + tol ≤ (a :: (mid ++ [d])).getD j 0 := by
+    intro i j hij hj
+    have hi : i < (a :: (mid ++ [d])).length := by omega
+    have hj' : j < (a :: (mid ++ [d])).length := by omega
+    have := List.pairwise_iff_getElem.mp hgap i j hi hj' hij
+    rw [List.getD_eq_getElem?_getD, List.getD_eq_getElem?_getD, List.getElem?_eq_getElem hi,
+      List.getElem?_eq_getElem hj']
+    exact this
+  obtain ⟨cp, hcp, sh1, sh2⟩ := cubicCurve_TANGENTNATURAL_ok a d mid tol rt atl htol hgap' x m hxs g hg
+  have hne : bTANGENTNATURAL ≠ bPERIODIC := by decide
+  have hv := natBasis_valid a d mid tol hgap' htol
+  have hnf := natBasis_numFunctions a d mid
+  have hcols : cp.ncols = m := sh2 0 (by omega)
+  have hex := nat_exact a d mid tol hgap' htol
+  have hdom := nat_in_domain a d mid tol hgap' htol
+  have hstart := nat_start a d mid tol hgap' htol
+  have hstop := nat_stop a d mid tol hgap' htol
+  have hlt : a < d := by have := hv.start_lt_stop; rw [hstart, hstop] at this; exact this
+  have hexa : (natBasis a d mid).ExactAt tol a := by have := hex 0 (by omega); simpa using this
+  have hexd : (natBasis a d mid).ExactAt tol d := by
+    have := hex (mid.length + 1) (by omega)
+    have e : (a :: (mid ++ [d])).getD (mid.length + 1) 0 = d := by
+      simp [List.getD_eq_getElem?_getD, List.getElem?_append_right]
+    rw [e] at this; exact this
+  have hsa : effSide (natBasis a d mid) a true = .right := by
+    unfold effSide; rw [hstop, if_neg (ne_of_lt hlt)]; rfl
+  have hsd : effSide (natBasis a d mid) d true = .left := by
+    unfold effSide; rw [hstop, if_pos rfl]
+  have h1 : (a :: (mid ++ [d])).headD 0 = a := rfl
+  have h2 : (a :: (mid ++ [d])).getLastD 0 = d := by simp [List.getLastD]
+  have hinterp : ∀ i < mid.length + 2, ∀ j < m,
+      splineVal (effSide (natBasis a d mid) ((a :: (mid ++ [d])).getD i 0) true)
+        (natBasis a d mid).kn 3 (mid.length + 4) (fun l => cp.get l j)
+        ((a :: (mid ++ [d])).getD i 0) = x.get i j := by
+    intro i hi j hj
+    obtain ⟨eN, eR, _, _, _, _, _, _, hint, _, _, _⟩ := C14_cubic_boundary _ _ _ _ _ _ _ _ _ hcp
+    simp only [hne, if_false] at hint
+    have hh := hint i (by rw [hlen]; exact hi) j (by rw [hcols]; exact hj)
+    have hx : Mat.get (cubicClose bTANGENTNATURAL rt atl x) i j = x.get i j := by unfold cubicClose; simp [hne]
+    rw [hx] at hh
+    rw [← hh]
+    unfold splineVal
+    rw [hnf]
+    apply sum_congr rfl
+    intro l hl
+    rw [evaluate_inside_right hv rfl htol (hex i hi) (hdom i hi).1 (hdom i hi).2
+      (by rw [hnf]; exact mem_range.mp hl), mul_comm]
+    rfl
+  have hbridgeA : ∀ (e : ℕ) (he : e < 4) (j : ℕ),
+      ∑ l ∈ range (mid.length + 4), ((natBasis a d mid).evaluate tol a e true).getD l 0 * cp.get l j
+        = splineDeriv .right (natBasis a d mid).kn 3 (mid.length + 4) (fun l => cp.get l j) e a := by
+    intro e he j
+    have := C14_row_is_splineDeriv hv rfl htol hexa (by rw [hstart]) (by rw [hstop]; exact hlt.le)
+      (show e < (natBasis a d mid).order from he) (fun l => cp.get l j)
+    rw [hnf, hsa] at this
+    exact this
+  have hbridgeD : ∀ (e : ℕ) (he : e < 4) (j : ℕ),
+      ∑ l ∈ range (mid.length + 4), ((natBasis a d mid).evaluate tol d e true).getD l 0 * cp.get l j
+        = splineDeriv .left (natBasis a d mid).kn 3 (mid.length + 4) (fun l => cp.get l j) e d := by
+    intro e he j
+    have := C14_row_is_splineDeriv hv rfl htol hexd (by rw [hstart]; exact hlt.le) (by rw [hstop])
+      (show e < (natBasis a d mid).order from he) (fun l => cp.get l j)
+    rw [hnf, hsd] at this
+    exact this
+  refine ⟨cp, hcp, sh1, sh2, hinterp, fun j hj => ?_⟩
+  obtain ⟨g', hg', _, _, _, hrows⟩ := C14_cubic_TANGENTNATURAL tol rt atl x (a :: (mid ++ [d])) (some g) _ cp hcp
+  have : g' = g := by cases hg'; rfl
+  subst this
+  have := hrows j (by rw [hcols]; exact hj)
+  rw [h1, h2, hnf] at this
+  exact ⟨by rw [← hbridgeA 1 (by omega) j]; exact this.1, by rw [← hbridgeD 2 (by omega) j]; exact this.2⟩
 
 /-- **No solvability hypothesis for surfaces at the default Greville parameters.**  For two valid
 clamped continuous non-periodic bases of order ≥ 2 (knot gaps ≥ `2(p−1)·tol`) and a grid of the right
@@ -1771,5 +2227,96 @@ example : ∃ c, interpolateCurve bq tolQ (some [1/8, 1/2, 3/2, 15/8]) pts4 = .o
     rw [hn] at hl
     have hi' : i < 7 := hi
     interval_cases l <;> interval_cases i <;> norm_num [Basis.kn, bq, tolQ, abs_of_nonneg, abs_of_neg]
+
+-- C14_cubic_TANGENT_exists / C14_cubic_TANGENTNATURAL_exists
+example :=
+  C14_cubic_TANGENT_exists (K := ℚ) 0 7 [1, 5/2] tolQ 0 (1/100000000) (by norm_num [tolQ])
+    (by norm_num [tolQ]) #[#[0, 0], #[1, 2], #[3, 1], #[4, 0]] 2
+    ⟨rfl, fun i hi => by (have hi' : i < 4 := hi); interval_cases i <;> rfl⟩ #[#[1, 0], #[0, 1]]
+    ⟨rfl, fun i hi => by interval_cases i <;> rfl⟩
+example :=
+  C14_cubic_TANGENTNATURAL_exists (K := ℚ) 0 7 [1, 5/2] tolQ 0 (1/100000000) (by norm_num [tolQ])
+    (by norm_num [tolQ]) #[#[0, 0], #[1, 2], #[3, 1], #[4, 0]] 2
+    ⟨rfl, fun i hi => by (have hi' : i < 4 := hi); interval_cases i <;> rfl⟩ #[#[1, 0]]
+    ⟨rfl, fun i hi => by interval_cases i; rfl⟩
+
+-- C14_cubic_HERMITE_exists: four strictly increasing parameters, four prescribed derivatives
+example :=
+  C14_cubic_HERMITE_exists (K := ℚ) 0 7 [1, 5/2] tolQ 0 (1/100000000) (by norm_num [tolQ])
+    (by norm_num [tolQ]) #[#[0, 0], #[1, 2], #[3, 1], #[4, 0]] 2
+    ⟨rfl, fun i hi => by (have hi' : i < 4 := hi); interval_cases i <;> rfl⟩
+    #[#[1, 0], #[0, 1], #[1, 1], #[0, -1]]
+    ⟨rfl, fun i hi => by (have hi' : i < 4 := hi); interval_cases i <;> rfl⟩
+
+-- C14_cubic_PERIODIC_uniform_exists_partial (and the seam statement): t = 0,1,2,3,4, four points that
+-- the model closes itself
+example :=
+  C14_cubic_PERIODIC_uniform_exists_partial (K := ℚ) tolQ 0 (1/100000000) (by norm_num [tolQ]) 0 1 (by norm_num)
+    (by norm_num [tolQ]) [0, 1, 2, 3, 4] 1 rfl
+    (fun k hk => by (have hk' : k < 5 := hk); interval_cases k <;> norm_num) pts4 2
+    (by decide +kernel) none
+
+-- C14_lsq_surface_exists: 3 × 2 samples for the bilinear space
+example : ∃ cp, leastSquareGridCore [bl, bl] tolQ [[0, 1/2, 1], [0, 1]]
+    { shape := [3, 2, 1], data := #[0, 1, 1, 2, 2, 3] } = .ok cp := by
+  have hn : bl.numFunctions = 2 := by decide
+  have hN : ∀ (ts : List ℚ) (idx : ℕ → ℕ), ts.getD (idx 0) 0 = 0 → ts.getD (idx 1) 0 = 1 →
+      GenNested bl.kn (bl.order - 1) bl.numFunctions (fun l => ts.getD (idx l) 0) true true := by
+    intro ts idx h0 h1
+    rw [hn]
+    exact { first := by simp only [if_true]; rw [h0]; norm_num [Basis.kn, bl],
+            last := by simp only [if_true]; rw [h1]; norm_num [Basis.kn, bl],
+            lt_succ := fun l hl => by
+              have : l = 0 := by omega
+              subst this
+              show ts.getD (idx 0) 0 < ts.getD (idx 1) 0
+              rw [h0, h1]; norm_num,
+            nest := fun l h1 h2 => by omega }
+  have hE : ∀ u : ℚ, u = 0 ∨ u = 1 → bl.ExactAt tolQ u := by
+    intro u hu i hi
+    have hi' : i < 4 := hi
+    rcases hu with rfl | rfl <;> interval_cases i <;> norm_num [Basis.kn, bl, tolQ]
+  have hclamp0 : bl.kn 0 = bl.kn (bl.order - 1) := by norm_num [Basis.kn, bl]
+  have hclamp1 : bl.kn bl.numFunctions = bl.kn (bl.numFunctions + (bl.order - 1)) := by
+    rw [hn]; norm_num [Basis.kn, bl]
+  have hmult : ∀ i, 1 ≤ i → i < bl.numFunctions → bl.kn i < bl.kn (i + (bl.order - 1)) := by
+    intro i h1 h2
+    rw [hn] at h2
+    interval_cases i; norm_num [Basis.kn, bl]
+  obtain ⟨cp, hcp, _⟩ := C14_lsq_surface_exists bl_valid (by decide) (by decide) hclamp0 hclamp1 hmult
+    bl_valid (by decide) (by decide) hclamp0 hclamp1 hmult (tol := tolQ) (by norm_num [tolQ])
+    [0, 1/2, 1] [0, 1] (fun l => 2 * l) (fun l => l) true true true true
+    (by intro l hl; rw [hn] at hl; interval_cases l <;> simp)
+    (hN _ _ (by simp) (by simp))
+    (by intro l hl; rw [hn] at hl; interval_cases l <;> [exact hE _ (Or.inl (by simp)); exact hE _ (Or.inr (by simp))])
+    (by intro l hl; rw [hn] at hl; interval_cases l <;> simp)
+    (hN _ _ (by simp) (by simp))
+    (by intro l hl; rw [hn] at hl; interval_cases l <;> [exact hE _ (Or.inl (by simp)); exact hE _ (Or.inr (by simp))])
+    { shape := [3, 2, 1], data := #[0, 1, 1, 2, 2, 3] } { shape := [3, 2, 1], data := #[0, 1, 1, 2, 2, 3] } 1
+    (C14_gridInputLsq_layouts [0, 1/2, 1] [0, 1] _ 1 (Or.inr rfl)) rfl
+  exact ⟨cp, hcp⟩
+
+-- C14_loft_curves_partial / C14_loft_surfaces_partial: four linear sections, unit centre distances
+example :=
+  C14_loft_curves_partial (K := ℚ) bl_valid (by decide) (by decide) (by norm_num [Basis.kn, bl])
+    (by norm_num [Basis.kn, bl, Basis.numFunctions])
+    (by
+      intro i h1 h2
+      have h2' : i < 2 := h2
+      interval_cases i; norm_num [Basis.kn, bl])
+    (tol := tolQ) (by norm_num [tolQ]) (by norm_num [tolQ])
+    (by
+      intro i j hij
+      have h01 : ∀ k, bl.kn k = 0 ∨ bl.kn k = 1 := by
+        intro k
+        by_cases hk : k < 4
+        · interval_cases k <;> norm_num [Basis.kn, bl]
+        · right; simp [Basis.kn, bl, Array.getD, hk]
+      rcases h01 i with h1 | h1 <;> rcases h01 j with h2 | h2 <;> rw [h1, h2] at hij ⊢ <;>
+        first | (norm_num at hij; done) | norm_num [tolQ, bl])
+    [{ shape := [2, 1], data := #[0, 1] }, { shape := [2, 1], data := #[1, 2] },
+     { shape := [2, 1], data := #[2, 4] }, { shape := [2, 1], data := #[3, 3] }]
+    [1, 1, 1] 2 1 (by decide) (by decide) (by decide) (by norm_num [tolQ])
+    (by intro s hs; simp at hs; rcases hs with rfl | rfl | rfl | rfl <;> rfl)
 
 end NonVacuity
